@@ -19,74 +19,119 @@ import tables
 import tableprop
 from common import Broken
 
-HDR = "import LspVerif.Spec.Wire\nimport LspVerif.Props.C04\nimport GenMeta\nimport GenRust\nopen LspVerif LspVerif.Wire\n"
+def hdr(sfx):
+    return f"import LspVerif.Spec.Wire\nimport LspVerif.Props.C04\nimport GenMeta{sfx}\nimport GenRust{sfx}\nopen LspVerif LspVerif.Wire\n"
 
-EVAL = HDR + """#eval do
-  let ms := rustStructsOK Gen.model Gen.rust Gen.model.structures ++ rustRestOK Gen.model Gen.rust
+
+EVAL = """#eval do
+  let ms := rustStructsOK NS.model NS.rust NS.model.structures ++ rustRestOK NS.model NS.rust
   for m in ms do IO.println s!"MISMATCH\\t{m.site}\\t{m.aspect}\\t{m.expected.replace "\\n" " "}\\t{m.actual.replace "\\n" " "}"
-  for s in Gen.rust.structs do
+  for s in NS.rust.structs do
     for f in s.fields do
       if f.wireHint != f.wire s then IO.println s!"MISMATCH\\t{s.name.toString}.{f.ident.toString}\\twire-hint\\t{(f.wire s).toString}\\t{f.wireHint.toString}"
 """
 
 
+def evolved_model(doc):
+    """One composite evolved metamodel of C06's family: every listed edit kind applied once, in order, deterministically (the
+    property quantifies over the committed metamodel *and* the evolved ones; C06 explores many more of them with the mismatch
+    list, here the obligations are *proved* for this one too)."""
+    import copy
+    import random
+    import evolve
+    d = copy.deepcopy(doc)
+    rnd = random.Random(11)
+    descs = []
+    for e in evolve.EDITS:
+        try:
+            descs.append(e(d, rnd))
+        except (StopIteration, IndexError):
+            continue
+    return d, "; ".join(descs)
+
+
+def check_model(ctx, sfx, doc, model_path, what):
+    """obligations for one metamodel: sfx "" = the committed one (namespace Gen), "E" = the evolved one (namespace GenE)"""
+    import re
+    import subprocess
+    ns = "Gen" + sfx
+    HDR = hdr(sfx)
+    problems = []
+    mod, err = tables.gen_meta(ctx, [model_path] if model_path else None, modname="GenMeta" + sfx, ns=ns)
+    if mod is None:
+        raise Broken(f"x_meta failed ({what}): " + err)
+    p = common.run_py(common.VERIF / "tools/extract/x_rust.py", ["--model", str(model_path)] if model_path else [], check=False, timeout=900)
+    if p.returncode == 4:
+        ctx.violation(f"C07|plugin-fails{sfx}", f"the rust plugin (or rustfmt on its output) fails on {what}: " + p.stderr[-300:],
+                      {"error": p.stderr[-1500:], "model": what, "how": "python -m generator --plugin rust --output-dir <scratch> [--model <evolved model>]"})
+        return problems
+    if p.returncode != 0:
+        problems.append(f"x_rust ({what}): " + p.stderr[-800:])
+        ctx.obligation("x_rust" + sfx, False, "translator", p.stderr)
+        return problems
+    text = p.stdout if not sfx else p.stdout.replace("namespace Gen", f"namespace {ns}").replace("end Gen", f"end {ns}").replace("import GenMeta", "import GenMeta" + sfx).replace("Gen.model", f"{ns}.model")
+    r = tables.compile_cached(ctx, "GenRust" + sfx, text)
+    if not r.ok:
+        raise Broken(f"GenRust{sfx} does not elaborate: " + r.out[-2000:])
+    layer, lemma, imports = tableprop.sliced_all(HDR, f"C07{sfx}s", f"{ns}.model.structures", f"fun s => (rustStructMismatches {ns}.model {ns}.rust s).isEmpty", 25, len(doc["structures"]), f"C07{sfx}_structs_chk")
+    nrs = len(re.findall(r"^def rs\d+ : RStruct", p.stdout, re.M))
+    layer2, lemma2, imports2 = tableprop.sliced_all(HDR, f"C07{sfx}w", f"{ns}.rust.structs", "fun s => s.fields.all (fun f => f.wireHint == f.wire s)", 40, nrs, f"C07{sfx}_wire_chk")
+    layer.append((f"C07{sfx}rest", HDR + f"theorem C07{sfx}_rest_chk : rustRestOK {ns}.model {ns}.rust = [] := by decide +kernel\n"))
+    thm = "C07" if not sfx else "C07_evolved"
+    final = imports + imports2 + f"import C07{sfx}rest\n" + HDR + lemma + lemma2 + f"""
+/-- C07 ({what}): every structure's serde names / types / Option / feature gates, every enumeration's
+    discriminants, every `or` alias, the method enums and the message structs conform. -/
+theorem {thm} : (∀ s ∈ {ns}.model.structures, rustStructMismatches {ns}.model {ns}.rust s = []) ∧
+    rustRestOK {ns}.model {ns}.rust = [] ∧ wireHintsOK {ns}.rust.structs = true := by
+  refine ⟨fun s hs => ?_, C07{sfx}_rest_chk, C07{sfx}_wire_chk⟩
+  have := List.all_eq_true.mp C07{sfx}_structs_chk s hs
+  simpa using this
+#print axioms {thm}
+"""
+    for mn, t in layer + layer2 + [("Inst" + sfx, final)]:
+        common.write_module(ctx.work, mn, t)
+    res = common.lean_compile(ctx.work, [[m for m, _ in layer + layer2], ["Inst" + sfx]])
+    failed = ctx.add_lean_results(res, theorems_expected={"Inst" + sfx: [thm]})
+    n_ev = sum(len(s["properties"]) for s in doc["structures"]) + len(doc["enumerations"]) + len(doc["typeAliases"]) + len(doc["requests"]) * 2 + len(doc["notifications"])
+    ctx.corr["evaluations"] = ctx.corr.get("evaluations", 0) + n_ev
+    ctx.corr["distinct_nontrivial"] = ctx.corr["evaluations"]
+    ctx.sample({"obligation": f"rustStructMismatches {ns}.model {ns}.rust s = [] for s in slice 0", "model": what, "structs_parsed": nrs})
+    if failed:
+        f = common.write_module(ctx.work, "Eval" + sfx, HDR + EVAL.replace("NS.", ns + "."))
+        q = subprocess.run(["lean", str(f)], capture_output=True, text=True, env=common.lean_env(ctx.work), cwd=str(ctx.work))
+        mm = [(l.split("\t")[1:] + ["", "", "", ""])[:4] for l in q.stdout.splitlines() if l.startswith("MISMATCH\t")]
+        for site, aspect, exp, act in mm[:40]:
+            ctx.violation(f"C07|{site}|{aspect}" + ("|evolved" if sfx else ""), f"lib.rs as emitted by the rust plugin for {what}: {site} {aspect}: expected {exp[:160]}, found {act[:160]}",
+                          {"item": site, "aspect": aspect, "expected": exp, "found": act, "model": what,
+                           "how": "python -m generator --plugin rust --output-dir <scratch>" + (" --model <the evolved model: tools/props/c07.py evolved_model>" if sfx else "") + "; rustfmt; look at the named item"})
+        if not mm:
+            for r in failed:
+                problems.append(f"{r.name}: {r.out[-1000:]}")
+    return problems
+
+
 def run(ctx):
     ctx.rule = ("obligations: kernel evaluation of the Rust conformance checkers per slice of structures + enumerations, aliases, method enums, "
-                "message structs; the mismatch list of the same checkers (diagnosis) is the witness search: each mismatch quotes the item")
+                "message structs, for the committed metamodel and for one composite evolved metamodel (every edit kind of C06 applied once); "
+                "the mismatch list of the same checkers (diagnosis) is the witness search: each mismatch quotes the item")
     ctx.trusted += ["translator x_rust.py (rustfmt + item/field/variant/type parser with self-check: every struct/enum/type declaration accounted for)",
                     "serde's rename_all=\"camelCase\" rule as modelled in Spec/Wire.lean (read from serde_derive's RenameRule)",
-                    "the metamodel -> Rust mapping of Spec/Wire.lean (documented mapping: Url, Decimal, ORn, CustomStringEnum/CustomIntEnum, Box transparent)"]
-    mod, err = tables.gen_meta(ctx)
-    if mod is None:
-        raise Broken("x_meta failed: " + err)
+                    "the metamodel -> Rust mapping of Spec/Wire.lean (documented mapping: Url, Decimal, ORn, CustomStringEnum/CustomIntEnum, Box transparent)",
+                    "tools/evolve.py (the evolved metamodel is schema-validated before use)"]
     doc = json.load(open(common.REPO / "generator/lsp.json"))
-    p = common.run_py(common.VERIF / "tools/extract/x_rust.py", check=False, timeout=900)
-    problems = []
-    if p.returncode == 4:
-        ctx.violation("C07|plugin-fails", "the rust plugin (or rustfmt on its output) fails on the committed model: " + p.stderr[-300:],
-                      {"error": p.stderr[-1500:], "how": "python -m generator --plugin rust --output-dir <scratch>"})
-        return
-    if p.returncode != 0:
-        problems.append("x_rust: " + p.stderr[-800:])
-        ctx.obligation("x_rust", False, "translator", p.stderr)
-    else:
-        r = tables.compile_cached(ctx, "GenRust", p.stdout)
-        if not r.ok:
-            raise Broken("GenRust does not elaborate: " + r.out[-2000:])
-        layer, lemma, imports = tableprop.sliced_all(HDR, "C07s", "Gen.model.structures", "fun s => (rustStructMismatches Gen.model Gen.rust s).isEmpty", 25, len(doc["structures"]), "C07_structs_chk")
-        import re
-        nrs = len(re.findall(r"^def rs\d+ : RStruct", p.stdout, re.M))
-        layer2, lemma2, imports2 = tableprop.sliced_all(HDR, "C07w", "Gen.rust.structs", "fun s => s.fields.all (fun f => f.wireHint == f.wire s)", 40, nrs, "C07_wire_chk")
-        layer.append(("C07rest", HDR + "theorem C07_rest_chk : rustRestOK Gen.model Gen.rust = [] := by decide +kernel\n"))
-        final = imports + imports2 + "import C07rest\n" + HDR + lemma + lemma2 + """
-/-- C07: every structure's serde names / types / Option / feature gates, every enumeration's
-    discriminants, every `or` alias, the method enums and the message structs conform. -/
-theorem C07 : (∀ s ∈ Gen.model.structures, rustStructMismatches Gen.model Gen.rust s = []) ∧
-    rustRestOK Gen.model Gen.rust = [] ∧ wireHintsOK Gen.rust.structs = true := by
-  refine ⟨fun s hs => ?_, C07_rest_chk, C07_wire_chk⟩
-  have := List.all_eq_true.mp C07_structs_chk s hs
-  simpa using this
-#print axioms C07
-"""
-        for mn, text in layer + layer2 + [("Inst", final)]:
-            common.write_module(ctx.work, mn, text)
-        res = common.lean_compile(ctx.work, [[m for m, _ in layer + layer2], ["Inst"]])
-        failed = ctx.add_lean_results(res, theorems_expected={"Inst": ["C07"]})
-        ctx.corr["evaluations"] = sum(len(s["properties"]) for s in doc["structures"]) + len(doc["enumerations"]) + len(doc["typeAliases"]) + len(doc["requests"]) * 2 + len(doc["notifications"])
-        ctx.corr["distinct_nontrivial"] = ctx.corr["evaluations"]
-        ctx.sample({"obligation": "rustStructMismatches Gen.model Gen.rust s = [] for s in slice 0", "structs_parsed": nrs})
-        if failed:
-            f = common.write_module(ctx.work, "Eval", EVAL)
-            import subprocess
-            q = subprocess.run(["lean", str(f)], capture_output=True, text=True, env=common.lean_env(ctx.work), cwd=str(ctx.work))
-            mm = [(l.split("\t")[1:] + ["", "", "", ""])[:4] for l in q.stdout.splitlines() if l.startswith("MISMATCH\t")]
-            for site, aspect, exp, act in mm[:40]:
-                ctx.violation(f"C07|{site}|{aspect}", f"lib.rs as emitted by the rust plugin: {site} {aspect}: expected {exp[:160]}, found {act[:160]}",
-                              {"item": site, "aspect": aspect, "expected": exp, "found": act,
-                               "how": "python -m generator --plugin rust --output-dir <scratch>; rustfmt; look at the named item"})
-            if not mm:
-                for r in failed:
-                    problems.append(f"{r.name}: {r.out[-1000:]}")
+    problems = check_model(ctx, "", doc, None, "the committed metamodel")
+    edoc, desc = evolved_model(doc)
+    d = common.scratch_dir("c07-evolved")
+    try:
+        import shutil
+        mf = d / "model.json"
+        mf.write_text(json.dumps(edoc))
+        sv = common.run_py(common.VERIF / "tools/search/schema_ok.py", [str(mf)], check=False)
+        if sv.stdout.strip() != "ok":
+            raise Broken("the evolved metamodel is not schema-valid (tools/evolve.py): " + sv.stdout[:300] + sv.stderr[-300:])
+        problems += check_model(ctx, "E", edoc, mf, "the evolved metamodel [" + desc[:300] + " ...]")
+    finally:
+        shutil.rmtree(d, ignore_errors=True)
     if problems and not ctx.violations:
         ctx.violation("C07|proof", "C07 obligations no longer check and the checker lists no mismatch", {"broken": problems}, no_input=True)
 
